@@ -22,6 +22,56 @@ theorem snapshot_no_lock (chk : Nat → Nat → Bool) (th : Local) (h : th.pc.in
       (th.feedLoad chk val).pc = .sPanic :=
   snapshot_no_lock_aux chk th h
 
+/-- Only `update`'s `lock()` can ever make a thread wait: a thread with an operation in
+progress can always take its next step, except a thread at `update`'s `lock()` while the
+lock is held.  (`SC.step … = none` means "not enabled".) -/
+theorem sc_only_update_lock_blocks (chk : Nat → Nat → Bool) (s : SC.State) (t ts : Nat) :
+    SC.step chk s (.run t ts) = none ↔
+      ((s.thr t).next = .none ∨ ((s.thr t).pc = .uLock ∧ s.held ≠ none)) :=
+  SC.step_none_iff chk s t ts
+
+/-- `try_update` never waits: its `try_lock` step is enabled in every state, and when another
+writer holds the lock it returns `false` in that single step, changing nothing. -/
+theorem sc_try_update_nonblocking (chk : Nat → Nat → Bool) (s : SC.State) (t ts : Nat)
+    (hpc : (s.thr t).pc = .tTry) :
+    ∃ s', SC.step chk s (.run t ts) = some s' ∧
+      (s.held ≠ none → (s'.thr t).pc = .retBool false ∧ s'.mem = s.mem ∧ s'.held = s.held ∧ s'.hist = s.hist) :=
+  SC.try_nonblocking chk s t ts hpc
+
+/-- `try_update` is a straight-line program of at most 9 steps, none of which is the blocking
+`lock()`: `tuMeasure` is positive exactly on its program counters, every step strictly
+decreases it whatever result is fed, and no step is `lock` (machine independent). -/
+theorem try_update_bounded (chk : Nat → Nat → Bool) (th : Local) (hm : 0 < tuMeasure th.pc) :
+    tuMeasure th.pc ≤ 9 ∧ th.next ≠ .lock ∧ th.next ≠ .none ∧
+    (∀ l o val, th.next = .load l o → tuMeasure (th.feedLoad chk val).pc < tuMeasure th.pc) ∧
+    (∀ r, th.next = .tryLock → tuMeasure (th.feedLock r).pc < tuMeasure th.pc) ∧
+    ((∀ l o, th.next ≠ .load l o) → th.next ≠ .tryLock → tuMeasure th.feedUnit.pc < tuMeasure th.pc) := by
+  refine ⟨?_, (tu_no_lock th hm).1, (tu_no_lock th hm).2, ?_, ?_, ?_⟩
+  · cases th.pc <;> simp [tuMeasure]
+  · intro l o val h; exact tu_feedLoad chk th val l o h hm
+  · intro r h; exact tu_feedLock th r h
+  · intro h h'; exact tu_feedUnit th hm h h'
+
+/-- SC: from any reachable state, with every other thread frozen wherever it is (including a
+writer holding the lock in the middle of an update), a reader run alone returns after at most 6
+further steps of its own (so at most 8 counting from before the call), all of them enabled,
+and it does not change memory. -/
+theorem sc_solo_snapshot_terminates {chk : Nat → Nat → Bool} {v0 : Nat} (h0 : chk 0 v0 = true) {s : SC.State}
+    (h : SC.Reachable chk v0 s) (t : Nat) (hpc : (s.thr t).pc.inSnap = true) :
+    ∃ k, k ≤ 6 ∧ ∃ s', SC.run chk s (List.replicate k (.run t 0)) = some s' ∧
+      (s'.thr t).pc = .retSnap ∧ s'.mem = s.mem := by
+  refine ⟨SC.soloMeasure s t, SC.soloMeasure_le s t, ?_⟩
+  exact SC.solo_terminates t _ s (SC.inv_reachable h0 h) hpc rfl
+
+/-- SC: a snapshot retries only when a write completed during its read: if the re-check of
+`sequence` sends it round the loop again, the value it now read is larger than the one it read
+before, i.e. an update with sequence number `sq + 1` has been published in between. -/
+theorem sc_retry_only_on_publish {chk : Nat → Nat → Bool} {v0 : Nat} (h0 : chk 0 v0 = true) {s s' : SC.State}
+    (h : SC.Reachable chk v0 s) (t ts : Nat) (hpc : (s.thr t).pc = .sSeq2)
+    (hs : SC.step chk s (.run t ts) = some s') (hretry : (s'.thr t).pc = .sV) :
+    (s.thr t).sq < s.mem .seq ∧ (s.thr t).sq + 1 < s.hist.length ∧ (s'.thr t).sq = s.mem .seq :=
+  SC.retry_publish (SC.inv_reachable h0 h) t ts hpc hs hretry
+
 /-- `get_base_time_unlocked` is `snapshot` on the module's cell, so it inherits every
 guarantee of `snapshot` (no lock, bounded own steps). -/
 theorem unlocked_inherits : getBaseTimeUnlockedOp = Op.snapshot := rfl
